@@ -31,7 +31,7 @@ def digits(v, w):
 
 
 def mk(pid, kinds, strict, source='string', perm=None, widths=None, T=60, sym_ids=False, sort_objects=False, tag='',
-       mids=None, may_fail=True, rc_mid=None, sym_rc=None):
+       mids=None, may_fail=True, rc_mid=None, sym_rc=None, rc_completed=False, merge_twice=False):
     """sym_ids: message IDs are symbolic digit strings of the given widths (used where no message fails:
     a failing merge formats its message ID into the error text, which realises the integer and turns
     one path into one path per value); otherwise they are the concrete ``mids``."""
@@ -47,6 +47,8 @@ def mk(pid, kinds, strict, source='string', perm=None, widths=None, T=60, sym_id
         P['mids'] = mids or ['20', '3', '100', '7'][:k]
     if rc_mid:
         P['rc_mid'] = rc_mid
+    P['rc_completed'] = rc_completed
+    P['merge_twice'] = merge_twice
     if sym_rc:
         sym.append(('m_rc', 'str'))
         pre += digits('m_rc', sym_rc)
@@ -79,6 +81,10 @@ def mk(pid, kinds, strict, source='string', perm=None, widths=None, T=60, sym_id
         cid += '/roCreate-id-' + rc_mid
     if sym_rc:
         cid += '/roCreate-symid-%d' % sym_rc
+    if rc_completed:
+        cid += '/roCreate-already-completed'
+    if merge_twice:
+        cid += '/merge-twice'
     if tag:
         cid += '/' + tag
     return Cell(pid=pid, cid=cid, harness='h_collect:collection_cell', params=P, sym=sym, pre=pre,
@@ -111,6 +117,13 @@ def cells(tier):
         for strict in (True, False):
             out.append(mk(PID, tr, strict, 'string', T=T, mids=['20', '3', '100'], rc_mid='50'))
             out.append(mk(PID, tr, strict, 's3', T=T, mids=['100', '20', '3'], rc_mid='21', perm=[2, 0, 3, 1]))
+    # a collection whose roCreate is already completed (saved output used again): every message fails; and a
+    # second merge() call on the same collection
+    for pair in (('roStoryMove', 'roStoryDelete'), ('roStoryAppend', 'roDelete')):
+        for strict in (True, False):
+            out.append(mk(PID, pair, strict, 'string', T=T, rc_completed=True))
+            out.append(mk(PID, pair, strict, 'file', T=T, merge_twice=True))
+    out.append(mk(PID, ('roItemInsert', 'roStorySend', 'roStoryReplace'), False, 's3', T=T, rc_completed=True))
     # roReplace among other messages
     for tr in (('roMetadataReplace', 'roReplace', 'roStoryAppend'), ('roStoryMove', 'roReplace', 'roDelete')):
         for strict in (True, False):
